@@ -17,7 +17,12 @@ class Violation(object):
         self.known_id = None
 
     def to_json(self):
-        return {"label": self.label, "assignment": self.assignment, "detail": self.detail,
+        import json
+        try:
+            detail = json.loads(json.dumps(self.detail, default=repr))      # plain data only (results cross process borders)
+        except Exception as e:      # noqa
+            detail = {"unprintable-detail": repr(e)}
+        return {"label": self.label, "assignment": self.assignment, "detail": detail,
                 "known_id": self.known_id}
 
 
